@@ -5,7 +5,11 @@
 //   c08_http_reader    HttpReader against a raw local HTTP/1.1 server that fragments bodies and cuts connections after
 //                      scripted byte counts: chunks are exact; every retry resumes at the first byte not yet received;
 //                      exhausted retries / early body end => error, never a short, shifted or duplicated chunk
-// Zero-size ranges are included for the local reader (finding K11, fixed); over HTTP they are excluded (finding K6, open).
+//   c08_http_edge_ranges      zero-size ranges and servers that append bytes nobody asked for (findings K6, K12, K13, fixed):
+//                             read_chunks / read_at still yield exactly the requested ranges
+//   c15_http_bounded_retries  a server that fails every transfer: read_at / read_chunks give up with an error after
+//                             exactly retries+1 requests (never retry without bound)
+// Zero-size ranges are included for both readers (findings K11, K6, K13, fixed).
 #![cfg(feature = "compress")]
 use std::io::SeekFrom;
 use std::pin::Pin;
@@ -219,6 +223,123 @@ fn c08_http_reader() {
             if log != expect_log { witness("a retry did not resume at the first byte not yet received (Range log differs)", detail); }
         }
         cases += 1;
+    }
+    println!("COMPANION-OK cases={}", cases);
+}
+
+// ---------------------------------------------------------------- edge ranges / surplus bytes / endless failures
+/// answers every Range request with the requested bytes followed by `extra` surplus bytes; `fail_all`: announce the
+/// body but close the connection before sending any of it
+async fn serve_simple(listener: TcpListener, data: Arc<Vec<u8>>, extra: usize, fail_all: bool, log: Log) {
+    loop {
+        let (mut sock, _) = match listener.accept().await { Ok(x) => x, Err(_) => return };
+        let mut head = vec![];
+        let mut b = [0u8; 1];
+        while !head.ends_with(b"\r\n\r\n") { match sock.read(&mut b).await { Ok(1) => head.push(b[0]), _ => break } }
+        let text = String::from_utf8_lossy(&head).to_lowercase();
+        let range = text.lines().find(|l| l.starts_with("range:")).map(|l| l.trim_start_matches("range:").trim().to_string()).unwrap_or_default();
+        let v: Vec<u64> = range.trim_start_matches("bytes=").split('-').filter_map(|s| s.trim().parse().ok()).collect();
+        if v.len() != 2 { let _ = sock.shutdown().await; continue; }
+        log.lock().unwrap().push((v[0], v[1]));
+        let (start, end) = if v[0] <= v[1] { ((v[0] as usize).min(data.len()), (v[1] as usize + 1).min(data.len())) } else { (0, 0) };
+        let mut body = data[start..end.max(start)].to_vec();
+        body.extend(std::iter::repeat(0xEEu8).take(extra));
+        let _ = sock.write_all(format!("HTTP/1.1 206 Partial Content\r\nContent-Length: {}\r\nConnection: close\r\n\r\n", if fail_all { body.len().max(1) } else { body.len() }).as_bytes()).await;
+        if !fail_all { let _ = sock.write_all(&body).await; }
+        let _ = sock.shutdown().await;
+    }
+}
+
+#[test]
+fn c08_http_edge_ranges() {
+    let rt = tokio::runtime::Builder::new_multi_thread().worker_threads(2).enable_all().build().unwrap();
+    let d = Arc::new(data(300));
+    let mut cases = 0;
+    let lists: Vec<Vec<(u64, usize)>> = vec![
+        vec![(5, 0), (20, 3)], vec![(0, 0)], vec![(10, 4), (14, 0), (14, 3)], vec![(10, 4), (20, 0)], vec![(0, 0), (0, 0), (0, 2)],
+        vec![(0, 4), (10, 3)], vec![(7, 5), (12, 5), (40, 1), (41, 0)], vec![(299, 1), (0, 1)],
+    ];
+    for extra in [0usize, 1, 3, 5000] {
+        for ranges in &lists {
+            let want: Vec<Vec<u8>> = ranges.iter().map(|&(o, s)| d[o as usize..o as usize + s].to_vec()).collect();
+            let (d2, ranges2) = (d.clone(), ranges.clone());
+            let got = rt.block_on(async move {
+                let log: Log = Arc::new(Mutex::new(vec![]));
+                let listener = TcpListener::bind("127.0.0.1:0").await.unwrap();
+                let port = listener.local_addr().unwrap().port();
+                let server = tokio::spawn(serve_simple(listener, d2, extra, false, log.clone()));
+                let url = reqwest::Url::parse(&format!("http://127.0.0.1:{}/a", port)).unwrap();
+                let mut reader = HttpReader::from_url(url).retries(0);
+                let mut out: Vec<Result<Vec<u8>, String>> = vec![];
+                {
+                    let mut s = reader.read_chunks(ranges2.iter().map(|&(o, s)| ChunkOffset::new(o, s)).collect());
+                    loop {
+                        match tokio::time::timeout(Duration::from_secs(30), s.next()).await {
+                            Ok(Some(x)) => { out.push(x.map(|b| b.to_vec()).map_err(|e| format!("{:?}", e))); if out.len() > 20 { break; } }
+                            Ok(None) => break,
+                            Err(_) => { out.push(Err("TIMEOUT".into())); break; }
+                        }
+                    }
+                }
+                // the same ranges one by one through read_at
+                let mut single: Vec<Result<Vec<u8>, String>> = vec![];
+                for &(o, s) in &ranges2 {
+                    match tokio::time::timeout(Duration::from_secs(30), reader.read_at(o, s)).await {
+                        Ok(x) => single.push(x.map(|b| b.to_vec()).map_err(|e| format!("{:?}", e))),
+                        Err(_) => single.push(Err("TIMEOUT".into())),
+                    }
+                }
+                server.abort();
+                (out, single)
+            });
+            if got.0.iter().chain(got.1.iter()).any(|g| g.as_ref().err().map(|e| e == "TIMEOUT").unwrap_or(false)) { continue; }
+            let expect: Vec<Result<Vec<u8>, String>> = want.iter().cloned().map(Ok).collect();
+            let detail = format!("ranges {:?}, server appends {} surplus bytes to every body: read_chunks {:?} read_at {:?}", ranges, extra, got.0.iter().map(|g| g.as_ref().map(|v| v.len())).collect::<Vec<_>>(), got.1.iter().map(|g| g.as_ref().map(|v| v.len())).collect::<Vec<_>>());
+            if got.0 != expect { witness("HTTP read_chunks does not yield exactly the requested ranges (zero-size ranges / surplus body bytes)", detail.clone()); }
+            if got.1 != expect { witness("HTTP read_at does not yield exactly the requested range (zero-size ranges / surplus body bytes)", detail); }
+            cases += 1;
+        }
+    }
+    println!("COMPANION-OK cases={}", cases);
+}
+
+#[test]
+fn c15_http_bounded_retries() {
+    let rt = tokio::runtime::Builder::new_multi_thread().worker_threads(2).enable_all().build().unwrap();
+    let d = Arc::new(data(100));
+    let mut cases = 0;
+    for retries in [0u32, 1, 3] {
+        for use_read_at in [true, false] {
+            let d2 = d.clone();
+            let (res, nreq) = rt.block_on(async move {
+                let log: Log = Arc::new(Mutex::new(vec![]));
+                let listener = TcpListener::bind("127.0.0.1:0").await.unwrap();
+                let port = listener.local_addr().unwrap().port();
+                let server = tokio::spawn(serve_simple(listener, d2, 0, true, log.clone()));
+                let url = reqwest::Url::parse(&format!("http://127.0.0.1:{}/a", port)).unwrap();
+                let mut reader = HttpReader::from_url(url).retries(retries).retry_delay(Duration::from_millis(1));
+                let res: Result<Result<usize, String>, ()> = if use_read_at {
+                    tokio::time::timeout(Duration::from_secs(8), reader.read_at(3, 5)).await.map(|x| x.map(|b| b.len()).map_err(|e| format!("{:?}", e))).map_err(|_| ())
+                } else {
+                    let mut s = reader.read_chunks(vec![ChunkOffset::new(3, 5)]);
+                    tokio::time::timeout(Duration::from_secs(8), s.next()).await.map(|x| x.unwrap_or(Err(bitar::archive_reader::HttpReaderError::UnexpectedEnd)).map(|b| b.len()).map_err(|e| format!("{:?}", e))).map_err(|_| ())
+                };
+                server.abort();
+                let n = log.lock().unwrap().len();
+                (res, n)
+            });
+            let detail = format!("{} with retries={} against a server that fails every transfer: result {:?}, {} requests sent", if use_read_at { "read_at(3,5)" } else { "read_chunks([3..8])" }, retries, res, nreq);
+            if nreq > retries as usize + 1 {
+                println!("WITNESS {{\"kind\":\"C15\",\"what\":\"more requests than retries+1: failed transfers are retried without bound\",\"detail\":{:?}}}", detail);
+                panic!("C15: unbounded retries");
+            }
+            match res {
+                Ok(Err(_)) => {}
+                Ok(Ok(_)) => { println!("WITNESS {{\"kind\":\"C15\",\"what\":\"a transfer that always fails is reported as success\",\"detail\":{:?}}}", detail); panic!("C15"); }
+                Err(()) => { continue; }   // no result within 8 s although the request count is within budget: inconclusive under load, never an alarm
+            }
+            cases += 1;
+        }
     }
     println!("COMPANION-OK cases={}", cases);
 }
